@@ -2,6 +2,9 @@ package verifsim
 
 import (
 	"bytes"
+
+	"github.com/taskctl/taskctl/pkg/task"
+
 	"fmt"
 	"sort"
 	"strings"
@@ -116,7 +119,7 @@ func (e *integEngine) checkC06(x *integExpect) {
 				c.Violate("C06", "overlap", "task %s: %s started (seq %d) before %s ended (seq %d)", t.Name, rs[i].Info.ID, rs[i].StartSeq, rs[i-1].Info.ID, rs[i-1].EndSeq)
 			}
 		}
-		rt := e.tasks[t.Name]
+		rt := e.resultTask(t.Name)
 		if rt.Skipped != want.Skipped {
 			c.Violate("C06", "skipped-flag", "task %s: Skipped=%v, model %v", t.Name, rt.Skipped, want.Skipped)
 		}
@@ -137,7 +140,7 @@ func (e *integEngine) checkC07(x *integExpect) {
 			continue
 		}
 		want := x.task[t.Name]
-		rt := e.tasks[t.Name]
+		rt := e.resultTask(t.Name)
 		switch {
 		case want.Skipped:
 			if !rt.Skipped || rt.Errored {
@@ -222,7 +225,7 @@ func (e *integEngine) checkC11(x *integExpect) {
 		if !want.Complete {
 			continue
 		}
-		rt := e.tasks[t.Name]
+		rt := e.resultTask(t.Name)
 		if !bytes.Equal([]byte(rt.Output()), want.Stdout) {
 			c.Violate("C11", "captured-output", "task %s: captured output %s differs from the %d bytes its commands wrote to stdout %s", t.Name, quoteShort([]byte(rt.Output())), len(want.Stdout), quoteShort(want.Stdout))
 		}
@@ -302,4 +305,28 @@ func quoteShort(b []byte) string {
 		return fmt.Sprintf("%q...(%d bytes)", b[:60], len(b))
 	}
 	return fmt.Sprintf("%q", b)
+}
+
+// resultTask returns the task object that carries the results of the execution of task
+// `name`: a stage runs its own copy of a (possibly shared) task, a direct run uses the
+// task object itself.
+func (e *integEngine) resultTask(name string) *task.Task {
+	direct := false
+	for _, d := range e.w.Drivers {
+		if d.Kind == "task" && d.Target == name {
+			direct = true
+		}
+	}
+	if !direct {
+		for _, g := range e.w.AllGraphs() {
+			for _, l := range g.AllLeaves() {
+				if e.stageTask(l) == name {
+					if st := e.stages[l.Name]; st != nil && st.Task != nil {
+						return st.Task
+					}
+				}
+			}
+		}
+	}
+	return e.tasks[name]
 }
